@@ -46,8 +46,18 @@ def flag_line(cs):
             return start + i
     return None
 
+class VirtualClock:
+    """Stand-in for the time module inside lib_guesser.status_report: perf_counter() jumps ahead by `offset` seconds once set,
+    so status reports of 'long-running' sessions can be exercised without waiting."""
+    def __init__(self):
+        self.offset = 0.0
+    def __getattr__(self, n):
+        return getattr(time, n)
+    def perf_counter(self):
+        return time.perf_counter() + self.offset
+
 class Scheduler:
-    def __init__(self, st, steps=None):
+    def __init__(self, st, steps=None, age=None):
         self.mcodes, self.kcodes, self.cs = watched_codes()
         self.st = st
         self.steps = sorted(steps or [], key=lambda x: x.p)
@@ -68,6 +78,8 @@ class Scheduler:
         self.flag_line = flag_line(self.cs)
         self.before = set(session.keypress_threads(self.cs))
         self.counters = {'pops': 0, 'guesses': 0}
+        self.age = age
+        self.clock = VirtualClock()
         self._b0 = self._c0 = 0
 
     def install(self):
@@ -152,6 +164,8 @@ class Scheduler:
         session.wait_until(lambda: self.st.waiting or not self._k_alive(), 5)
         self.cur = step
         self._saw_flag_line = False
+        if self.age:
+            self.clock.offset = float(self.age)       # the session has 'been running' that long when the request arrives
         self.deliveries.append((self.m_idx, code.co_name, line))
         self.trace.update(f'DELIVER@{code.co_name}:{line};'.encode())
         self._b0, self._c0 = self.st.blocked, self.st.consumed
@@ -175,13 +189,16 @@ class Scheduler:
     def digest(self):
         return self.trace.hexdigest()[:16]
 
-def run_scheduled(argv, schedule=None, trigger=None):
-    # schedule: list of Step
+def run_scheduled(argv, schedule=None, trigger=None, age=None):
+    # schedule: list of Step; age: virtual seconds the session has been running when the first request is delivered
     """One real main() run under the scheduler.  Returns (Result, Scheduler)."""
     st = session.Stdin()
     import io, contextlib
-    sch = Scheduler(st, schedule)
+    sch = Scheduler(st, schedule, age=age)
     sch.install()
+    import lib_guesser.status_report as _sr
+    _real_time = _sr.time
+    _sr.time = sch.clock
     late = io.StringIO()
     with contextlib.redirect_stderr(late):      # a released helper thread may still print its status after main() returned
         try:
@@ -199,6 +216,7 @@ def run_scheduled(argv, schedule=None, trigger=None):
                 if t.is_alive():
                     sch.problems.append('helper thread still alive after stdin was closed')
             sch.uninstall()
+            _sr.time = _real_time
             if res is not None:
                 res.restore_input()
     return res, sch
